@@ -169,6 +169,16 @@ func classify(c *Case, v *verdict) string {
 	return ""
 }
 
+// schemaRejected: jsonapi.NewSchema refused a world whose names all are member names by the
+// reference definition (refMemberName). The handler cannot be exercised on it; the member-name rules
+// no longer correspond to the model's.
+func (h *harness) schemaRejected(w World, err error) {
+	h.run.Count("world:rejected-by-NewSchema")
+	what := "jsonapi.NewSchema rejects a schema whose type/attribute/relationship names are all valid member names: " + err.Error()
+	h.run.Oblige(obCorr, "correspondence", 0, false, what)
+	h.run.Violate("correspondence", what, "", true, map[string]any{"world": w, "new_schema_error": err.Error()})
+}
+
 func (h *harness) record(c *Case, v *verdict, n int) {
 	h.run.Oblige(obDoc, "oracle", n, true, "")
 	h.run.Oblige(obRef, "oracle", n, true, "")
@@ -321,6 +331,14 @@ func shrinkCandidates(c Case) []Case {
 			}
 		}
 	}
+	if c.Req.Inject != nil && len(*c.Req.Inject) > 0 {
+		for i := range *c.Req.Inject {
+			d := clone()
+			l := append(append([]string{}, (*c.Req.Inject)[:i]...), (*c.Req.Inject)[i+1:]...)
+			d.Req.Inject = &l
+			out = append(out, d)
+		}
+	}
 	if c.Req.Body != "" {
 		d := clone()
 		d.Req.Body, d.Req.Label = "", BodyLabel{Family: "empty"}
@@ -365,7 +383,7 @@ func (h *harness) runBatch(w World, schema *jsonapi.Schema, reqs []ReqSpec, sour
 		v := judge(&c, real, reply)
 		comps := c.Req.components()
 		known := c.World.typ(comps[0]) != nil
-		nontrivial := v.goRef != 406 && known && len(comps) <= 4 && !(v.goRef == 400 && !queryAllSupported(&c.Req))
+		nontrivial := c.Req.Inject == nil && v.goRef != 406 && known && len(comps) <= 4 && !(v.goRef == 400 && !queryAllSupported(&c.Req))
 		h.run.Case(shape+"|"+c.Req.sexp().String(), nontrivial)
 		h.run.Count("source:" + source)
 		h.run.Count(fmt.Sprintf("status:%d", real.Status))
@@ -374,6 +392,9 @@ func (h *harness) runBatch(w World, schema *jsonapi.Schema, reqs []ReqSpec, sour
 		h.run.Count("accept:" + c.Req.AcceptKind)
 		h.run.Count("query:" + c.Req.QueryKind)
 		h.run.Count("body:" + c.Req.Label.Family)
+		if c.Req.Inject != nil {
+			h.run.Count(fmt.Sprintf("inject:errors=%d", len(*c.Req.Inject)))
+		}
 		if real.Panic == "" {
 			if d, err := parseDoc(real.Body); err == nil {
 				switch {
@@ -482,6 +503,9 @@ func main() {
 		defer m.Close()
 	}
 	run.SetRule(ruleText)
+	if !injectAvailable {
+		run.Note("built without tag c19hook: the injected-error-list cases (multi-error documents through the verif hook of repo-patches/C19/03) are not run")
+	}
 
 	if run.Replay != "" {
 		var c Case
@@ -517,8 +541,8 @@ func main() {
 		}
 		v, err := h.evalOne(&c)
 		if err != nil {
-			fmt.Fprintln(os.Stderr, "corpus case", f, err)
-			os.Exit(2)
+			h.schemaRejected(c.World, err)
+			continue
 		}
 		run.Case("corpus|"+f, true)
 		run.Count("source:corpus")
@@ -534,9 +558,13 @@ func main() {
 		r := run.Rand.Fork()
 		w := genWorld(r)
 		schema, err := w.build()
+		for tries := 0; err != nil && tries < 20; tries++ {
+			// every generated name is a member name by the reference definition: NewSchema must accept
+			h.schemaRejected(w, err)
+			w = genWorld(r)
+			schema, err = w.build()
+		}
 		if err != nil {
-			run.Count("world:rejected-by-NewSchema")
-			fmt.Fprintln(os.Stderr, "generated world rejected:", err)
 			continue
 		}
 		run.Count(fmt.Sprintf("world:types=%d", len(w.Types)))
@@ -559,6 +587,19 @@ func main() {
 			reqs = append(reqs, genRequest(r.Fork(), &w))
 		}
 		h.runBatch(w, schema, reqs, "random")
+		if injectAvailable {
+			var inj []ReqSpec
+			for i := 0; i < run.Scale(150, 300); i++ {
+				q := genRequest(r.Fork(), &w)
+				list := []string{}
+				for n := hx.Pick(r, []int{0, 1, 1, 2, 2, 2, 3, 3, 4}); n > 0; n-- {
+					list = append(list, hx.Pick(r, []string{"", "", "", "400", "403", "404", "409", "422", "500", "503", "201", "999", "418"}))
+				}
+				q.Inject = &list
+				inj = append(inj, q)
+			}
+			h.runBatch(w, schema, inj, "injected-error-lists")
+		}
 		if wi < 2 {
 			run.Sample(Case{World: w, Req: reqs[0]})
 		}
